@@ -212,6 +212,18 @@ def named_family(rng, n):
 def deep_directed_def(rng):
     """Directed (not inverse-closed) graphs with a small orbit and MANY layers: one long cycle, optionally with a local
     3-cycle / transposition, acting on a state with one or two marked points."""
+    if rng.random() < 0.3:
+        # two disjoint directed cycles Z_a x Z_b with one marked point each: a + b - 1 layers (well above 64), back edges
+        # whenever the short cycle wraps around; a second marked point on the long cycle gives a coset with fewer layers
+        a, b = rng.randint(45, 80), rng.randint(2, 5)
+        n = a + b
+        g1 = [(i + 1) % a for i in range(a)] + list(range(a, n))
+        g2 = list(range(a)) + [a + (i + 1) % b for i in range(b)]
+        central = [0] * n
+        central[rng.randrange(a)] = 1
+        central[a + rng.randrange(b)] = 1
+        gens = [g1, g2] if rng.random() < 0.7 else [g2, g1]
+        return GDef("perm", gens, central, tag="deep-directed-two-cycles")
     n = rng.randint(11, 26)
     gens = [[(i + 1) % n for i in range(n)]]
     r = rng.random()
